@@ -39,6 +39,21 @@ def _call(args):
         mod = importlib.import_module(modname)
         return getattr(mod, fname)(**kw)
     except Exception as e:
+        # An exception whose innermost frame is code of the tree under check, raised while a bounded check drives it on the
+        # inputs the property quantifies over, is a failing input against the real code (the call chain is the replay); an
+        # exception raised in the checker's own frames is a checker error (exit 3), never a violation.
+        frames = traceback.extract_tb(e.__traceback__)
+        repo_real = os.path.realpath(REPO) + os.sep
+        if frames and os.path.realpath(frames[-1].filename).startswith(repo_real):
+            last = frames[-1]
+            rel = os.path.relpath(os.path.realpath(last.filename), repo_real)
+            chain = " -> ".join("%s:%d %s" % (os.path.basename(f.filename), f.lineno, f.name) for f in frames[-4:])
+            return {"name": "%s.%s" % (modname, fname), "kind": "bounded", "bound": "aborted: the code under check raised", "evaluations": 1, "obligations": [],
+                    "violations": [{"name": "bounded/%s/raises" % modname.split(".")[-1], "key": "raises:%s:%s:%s" % (type(e).__name__, rel, last.name),
+                                    "input": "call chain %s" % chain, "confirmed": True,
+                                    "detail": "%s: %s raised in %s line %d (%s) while %s.%s drove the code under check | %s" % (
+                                        type(e).__name__, str(e)[:200], rel, last.lineno, last.name, modname, fname, traceback.format_exc()[-900:].replace("\n", " | "))}],
+                    "assumptions": []}
         return {"name": "%s.%s" % (modname, fname), "error": "%s: %s\n%s" % (type(e).__name__, e, traceback.format_exc()[-1200:]),
                 "obligations": [], "violations": []}
 
